@@ -172,7 +172,7 @@ def run(tier, seed, log):
     pump = PUMPED[tier]
     pstates = ptrans = 0
     for n, mini, depth in ([(n, False, pump["depth"]) for n in pump["ns"]] +
-                           [(n, True, pump["mini_depth"]) for n in pump["ns"]]):
+                           ([(n, True, pump["mini_depth"]) for n in pump["ns"]] if tier != "quick" else [])):
         alpha = Pumped(n, mini=mini)
         res = engine_h.explore(System(alpha), seed=seed, max_depth=depth)
         for fp, (cnt, rec) in res.viols.items():
